@@ -24,25 +24,29 @@ def _poly(mode):
     def runs(tier):
         d3 = ["--mode", mode, "--mindim", "3", "--maxdim", "3"]
         nar = ["--mode", mode, "--mindim", "2", "--maxdim", "2", "--narrow"]
+        # run 4 (C01): dimension 4, systems that build and cut cubes, descriptions + predicates + comparisons only
+        d4 = ["--mode", mode, "--mindim", "4", "--maxdim", "4", "--narrow", "--light"]
         if tier == "quick":
             if mode == "C01":
                 return [{"harness": "poly", "args": ["--mode", mode, "--depth", "3", "--pool", "24"], "budget": 330},
                         {"harness": "poly", "args": d3 + ["--depth", "2", "--pool", "24"], "budget": 240},
-                        {"harness": "poly", "args": nar + ["--depth", "5", "--pool", "12"], "budget": 240}]
+                        {"harness": "poly", "args": nar + ["--depth", "5", "--pool", "12"], "budget": 240},
+                        {"harness": "poly", "args": d4 + ["--depth", "4", "--pool", "12"], "budget": 240}]
             return [{"harness": "poly", "args": ["--mode", mode, "--depth", "2", "--pool", "36"], "budget": 330},
                     {"harness": "poly", "args": d3 + ["--depth", "1", "--pool", "16"], "budget": 240},
                     {"harness": "poly", "args": nar + ["--followups", "--depth", "4", "--pool", "4", "--poolsigs", "1", "--reps-per-sig", "6"], "budget": 330}]
         if mode == "C01":
             return [{"harness": "poly", "args": ["--mode", mode, "--depth", "3", "--all-states"], "budget": 3000},
                     {"harness": "poly", "args": d3 + ["--depth", "3"], "budget": 3000},
-                    {"harness": "poly", "args": nar + ["--depth", "5", "--pool", "24", "--all-states"], "budget": 3000}]
+                    {"harness": "poly", "args": nar + ["--depth", "5", "--pool", "24", "--all-states"], "budget": 3000},
+                    {"harness": "poly", "args": d4 + ["--depth", "5", "--pool", "24"], "budget": 3000}]
         return [{"harness": "poly", "args": ["--mode", mode, "--depth", "3"], "budget": 3000},
                 {"harness": "poly", "args": d3 + ["--depth", "2", "--pool", "24"], "budget": 3000},
                 {"harness": "poly", "args": nar + ["--followups", "--depth", "5", "--pool", "8", "--reps-per-sig", "12"], "budget": 3000}]
     return runs
 
 CHECKS = {
-    "C01": {"runs": _poly("C01"), "level": "model_checking", "parallel_runs": 3, "deadline": {"quick": 330, "thorough": 3000}},
+    "C01": {"runs": _poly("C01"), "level": "model_checking", "parallel_runs": 4, "deadline": {"quick": 330, "thorough": 3000}},
     "C02": {"runs": _poly("C02"), "level": "model_checking", "parallel_runs": 3, "deadline": {"quick": 330, "thorough": 3000}},
 }
 
